@@ -31,6 +31,7 @@ TABLES = {
     'TagMap': dict(rec=r'^gdstk::TagMap$', item=r'TagMapItem', insert='set', empty_field=None),
     'StyleMap': dict(rec=r'^gdstk::StyleMap$', item=r'\bStyle\b', insert='set', empty_field='value'),
 }
+TABLE_FILES = {'include/gdstk/map.hpp', 'include/gdstk/set.hpp', 'include/gdstk/tagmap.hpp', 'src/style.cpp', 'include/gdstk/style.hpp'}
 METHODS = ['get_slot', 'insert', 'del', 'resize', 'next', 'has', 'copy_from']
 
 
@@ -703,11 +704,90 @@ def check_update_xor_insert(ctx, db):
     ctx.check(path is None, 'R-MUSTPASS', 'get_or_add_property/reuse-xor-insert', reuse.loc(), 'adding a value to an existing property never also links a new property')
 
 
+def check_property_list_model(ctx, db):
+    """remove_property and get_property interpreted (sa/minieval) on every property list of up to four entries over two names, for the
+    removal of one name in both modes (first occurrence / all occurrences), against a Python list: the entries that remain, in order;
+    the count returned; every removed node (and its name) released exactly once, no remaining node released; get_property finds the
+    first entry of a name or nothing. Whatever loop and exit forms the functions use."""
+    from .. import minieval as M
+    import itertools as it
+    rp, gp = db.fn('gdstk::remove_property'), db.fn('gdstk::get_property')
+    ctx.touch(rp)
+    ctx.touch(gp)
+    bad = []
+    runs = 0
+    for n in range(0, 5):
+        for names in it.product('ab', repeat=n):
+            for allocc in (0, 1):
+                runs += 1
+                nodes = [M.Obj(name=nm, value=('val', k_), next=0, _k=k_) for k_, nm in enumerate(names)]
+                for k_ in range(len(nodes) - 1):
+                    nodes[k_]['next'] = nodes[k_ + 1]
+                freed = []
+
+                def hook(callee, args, node):
+                    short = (callee or '').split('::')[-1]
+                    if short == 'strcmp':
+                        return (0 if str(args[0]) == str(args[1]) else (1 if str(args[0]) > str(args[1]) else -1),)
+                    if short in ('free_allocation', 'free'):
+                        freed.append(args[0].get('_k') if isinstance(args[0], M.Obj) else ('name', args[0]))
+                        return (None,)
+                    if short == 'property_values_clear':
+                        return (None,)
+                    return None
+                mi = M.Mini(db, hook=hook, budget=20000)
+                mi.obj_store = True
+                env = {rp.params[0]['n']: nodes[0] if nodes else 0, rp.params[1]['n']: 'a', rp.params[2]['n']: allocc}
+                ret = None
+                try:
+                    mi.run(rp.body, env)
+                except M.Return as rr:
+                    ret = rr.v
+                except AnalysisBroken as ex:
+                    bad.append('list %s, all=%d: %s' % (list(names), allocc, ex))
+                    continue
+                left = []
+                cur = env[rp.params[0]['n']]
+                guard = 0
+                while isinstance(cur, M.Obj) and guard < 10:
+                    left.append(cur['_k'])
+                    cur = cur.get('next', 0)
+                    guard += 1
+                gone = [k_ for k_, nm in enumerate(names) if nm == 'a']
+                if not allocc:
+                    gone = gone[:1]
+                want_left = [k_ for k_ in range(n) if k_ not in gone]
+                freed_nodes = sorted(x for x in freed if not isinstance(x, tuple))
+                if left != want_left or ret != len(gone) or freed_nodes != gone:
+                    bad.append('list %s, remove "a" (%s): %s entries remain (expected %s), returns %s (expected %d), nodes released %s' %
+                               (list(names), 'all occurrences' if allocc else 'first occurrence', [names[k_] + str(k_) for k_ in left], [names[k_] + str(k_) for k_ in want_left], ret, len(gone), freed_nodes))
+            # look-up
+            runs += 1
+            nodes = [M.Obj(name=nm, value=('val', k_), next=0, _k=k_) for k_, nm in enumerate(names)]
+            for k_ in range(len(nodes) - 1):
+                nodes[k_]['next'] = nodes[k_ + 1]
+            mi = M.Mini(db, hook=lambda callee, args, node: ((0 if str(args[0]) == str(args[1]) else 1),) if (callee or '').endswith('strcmp') else None, budget=20000)
+            mi.obj_store = True
+            ret = None
+            try:
+                mi.run(gp.body, {gp.params[0]['n']: nodes[0] if nodes else 0, gp.params[1]['n']: 'b'})
+            except M.Return as rr:
+                ret = rr.v
+            want = next((('val', k_) for k_, nm in enumerate(names) if nm == 'b'), 0)
+            if ret != want:
+                bad.append('list %s: get_property("b") returns %s, expected %s' % (list(names), ret, want))
+    ctx.explored['valuations'] += runs
+    ctx.check(not bad, 'R-MODEL.list', 'remove_property/get_property', rp.loc(), 'interpreted on %d (list, mode) cases: the list behaves as an ordered multimap under removal of the first / of all occurrences, and look-up finds the first occurrence' % runs,
+              'the property list does not behave as an ordered multimap: ' + '; '.join(bad[:3]))
+    ctx.require('R-MODEL.list cases interpreted', runs, 80)
+
+
 def run(ctx):
     db = ctx.db
+    ctx.attempt(check_property_list_model, ctx, db)
     nullable = flow.nullable_functions(db)
     ctx.attempt(check_property_lists, ctx, db, nullable)
-    ctx.attempt(check_tables, ctx, db)
+    ctx.memo('tables', TABLE_FILES, check_tables, db)
     ctx.attempt(check_payload, ctx, db)
     ctx.attempt(check_array, ctx, db)
     ctx.attempt(check_heap, ctx, db)
